@@ -39,6 +39,7 @@ structure Before (sc : Scenario) (sent : Bool) (s : Segs) : Prop where
   reloads : kindsIn [.reload, .sig] s.reloads
   sigK : kindsIn [.sig] s.sig
   post : kindsIn [.reload] s.post
+  postEnv : s.post.all (isEnvReload sc) = true
   sorted : (ids s.reloads ++ ids s.post).Pairwise (· ≤ ·)
   hasSig : s.before.any isSig = true
   shuts : s.shuts = []
@@ -63,9 +64,10 @@ theorem Before.wk {sc : Scenario} {sent : Bool} {s : Segs} (b : Before sc sent s
   stops := h4
   post := b.post
 
-theorem lemma_returnsOnce {s : Segs} (h : s.WK) : returnsOnce s.log = true := by
+theorem lemma_returnsOnce (sc : Scenario) {s : Segs} (h : s.WK) (hp : s.post.all (isEnvReload sc) = true) :
+    returnsOnce sc s.log = true := by
   simp only [returnsOnce, Bool.and_eq_true]
-  exact Segs.log_ret h
+  exact ⟨(Segs.log_ret h).1, by rw [Segs.afterRet_log h]; exact hp⟩
 
 theorem lemma_startsOk (sc : Scenario) {s : Segs} (h : s.WK) (c : Bool)
     (hs : s.starts = (startHooks sc.metrics 0 c sc.starts).evs) : startsOk sc s.log = true := by
@@ -138,6 +140,7 @@ theorem lemma_timeoutLegit (sc : Scenario) (sent expired race : Bool)
       left; exact List.any_eq_true.mpr ⟨_, hq, by simpa [stuck, stuckForever] using hs⟩
     | drain => right; exact hexp (by simpa [stuck] using hs)
     | never => left; exact List.any_eq_true.mpr ⟨_, hq, rfl⟩
+    | hijack => simp [stuck] at hs
   · right; exact hexp h
 
 theorem lemma_allComplete (sc : Scenario) (expired : Bool) (fp : Option Nat) (hfp : fp = none)
@@ -158,6 +161,7 @@ theorem lemma_allComplete (sc : Scenario) (expired : Bool) (fp : Option Nat) (hf
     simp only [stuck] at hq'
     simp [reqResOf, hq']
   | never => simp [stuck] at hq'
+  | hijack => simp [reqResOf]
 
 
 theorem lemma_count_flushIf (b : Bool) : (flushIf b).count Ev.flush = if b then 1 else 0 := by
@@ -187,7 +191,7 @@ theorem lemma_shutdown (sc : Scenario) (race sent : Bool) (s : Segs) (rres : Lis
     simp only [hp, if_true]
     have wk := b.wk sh.evs [] [] [] K (kindsIn_nil _) (kindsIn_nil _) (kindsIn_nil _)
     simp only [holds, Run.obs, hcond, if_true, Bool.and_eq_true]
-    refine ⟨⟨⟨⟨lemma_returnsOnce wk, lemma_startsOk sc wk c hc⟩, lemma_readiesOk sc wk (Or.inr b.readies)⟩,
+    refine ⟨⟨⟨⟨lemma_returnsOnce sc wk b.postEnv, lemma_startsOk sc wk c hc⟩, lemma_readiesOk sc wk (Or.inr b.readies)⟩,
       lemma_reloadsOk wk rres b.sorted hres _ rfl rfl⟩, ?_⟩
     simp only [shutdownOk, Bool.and_eq_true]
     refine ⟨⟨Segs.log_guarded wk b.hasSig, ?_⟩, ?_⟩
@@ -217,7 +221,7 @@ theorem lemma_shutdown (sc : Scenario) (race sent : Bool) (s : Segs) (rres : Lis
           · exact kindsIn_nil _)
       (flushIf_kinds _) (stopHooks_kinds _ _)
     simp only [holds, Run.obs, hcond, if_true, Bool.and_eq_true]
-    refine ⟨⟨⟨⟨lemma_returnsOnce wk, lemma_startsOk sc wk c hc⟩, lemma_readiesOk sc wk (Or.inr b.readies)⟩,
+    refine ⟨⟨⟨⟨lemma_returnsOnce sc wk b.postEnv, lemma_startsOk sc wk c hc⟩, lemma_readiesOk sc wk (Or.inr b.readies)⟩,
       lemma_reloadsOk wk rres b.sorted hres _ rfl rfl⟩, ?_⟩
     simp only [shutdownOk, Bool.and_eq_true]
     refine ⟨⟨Segs.log_guarded wk b.hasSig, ?_⟩, ?_⟩
@@ -318,7 +322,7 @@ theorem lemma_failed (sc : Scenario) (c : Bool) (res : Res) (finMet finHeld : Bo
     holds sc (failedObs sc c res finMet finHeld tr) = true := by
   have wk := lemma_failed_wk sc c (flushIf tr) (flushIf_kinds _)
   simp only [holds, hcond, Bool.false_eq_true, if_false, Bool.and_eq_true]
-  refine ⟨⟨⟨⟨lemma_returnsOnce wk, lemma_startsOk sc wk c rfl⟩, lemma_readiesOk sc wk (Or.inl rfl)⟩,
+  refine ⟨⟨⟨⟨lemma_returnsOnce sc wk rfl, lemma_startsOk sc wk c rfl⟩, lemma_readiesOk sc wk (Or.inl rfl)⟩,
     lemma_reloadsOk wk _ (by simp [ids_nil]) (lemma_naRounds sc) _ rfl rfl⟩, ?_⟩
   have clean : tr = sc.tracing → (finMet = false ∧ finHeld = false) →
       telemetryClean sc (failedObs sc c res finMet finHeld tr) = true := by
